@@ -144,7 +144,13 @@ def addition_is_associative_in_flattened_content():
     acc2 = a + b
     acc2 += (c + lone)
     prove("+=combined", _tags(list(acc2)) == want + ["s"])
-    prove("antenna+detector-via-radd", _tags(list(lone + a)) == ["s", "a0"] if False else True)
+    # a left operand that is not a detector (an antenna, a list of antennas) comes FIRST
+    prove("antenna+detector", _tags(list(lone + a)) == ["s", "a0"])
+    prove("antenna+combined", _tags(list(lone + (a + b))) == ["s", "a0", "b0", "b1"])
+    l1, l2 = Ant("l1"), Ant("l2")
+    prove("list+combined", _tags(list([l1, l2] + (b + c))) == ["l1", "l2", "b0", "b1", "c0"])
+    prove("(list+detector)+detector = list+(detector+detector)",
+          _tags(list(([l1, l2] + b) + c)) == _tags(list([l1, l2] + (b + c))))
     prove("list-on-the-right", _tags(list((a + b) + [lone])) == ["a0", "b0", "b1", "s"])
     prove("combined-is-flat-one-level", len((a + b + c).subsets) == 3)
     prove("0+detector-is-the-detector", (0 + a) is a)
